@@ -85,7 +85,9 @@ package tchannel
 
 //@ func (f *Frame) read(msg message) (err error)
 //@   requires FrameFull(f) && msg != nil && f.Header.size >= 16
-//@   modifies msg.*
+// (msg.(*initMessage).*: the engine runs the promoted (*initMessage).read on a
+// stand-alone initMessage at msg's address; see message.read in verif_contracts.go)
+//@   modifies msg.*, msg.(*initMessage).*
 //@   ensures err == nil && istype(msg, *initReq) ==> msg.(*initReq).Version == be16(f.Payload, 0)
 //@   ensures err == nil && istype(msg, *initRes) ==> msg.(*initRes).Version == be16(f.Payload, 0)
 //@   property C13
@@ -118,7 +120,7 @@ package tchannel
 // the id it reports is the id of the frame that arrived (0 if none did).
 //@ func (ch *Channel) readMessage(c net.Conn, msg message) (id uint32, err error)
 //@   requires ch.connectionOptions.FramePool != nil && c != nil && msg != nil
-//@   modifies msg.*
+//@   modifies msg.*, msg.(*initMessage).*
 //@   defines err == nil && istype(msg, *initReq) ==> RxNames(c, msg.(*initReq).initParams)
 //@   defines err == nil && istype(msg, *initRes) ==> RxNames(c, msg.(*initRes).initParams)
 //@   label truncated-or-silent-is-an-error
